@@ -503,6 +503,8 @@ pub struct GenCfg {
     pub allow_scan: bool,
     /// pre-existing graph nodes passed in as globals named gn0.. (C09)
     pub graph_node_globals: usize,
+    /// attribute values may be graph-node references (never rendered to text)
+    pub gnode_attr_values: bool,
 }
 
 impl Default for GenCfg {
@@ -522,6 +524,7 @@ impl Default for GenCfg {
             allow_shorthands: true,
             allow_scan: true,
             graph_node_globals: 0,
+            gnode_attr_values: false,
         }
     }
 }
@@ -838,6 +841,11 @@ impl<'r> Gen<'r> {
     }
 
     fn any_value(&mut self, depth: usize) -> Expr {
+        if self.cfg.gnode_attr_values && self.r.chance(1, 6) {
+            if let Some(g) = self.gnode_expr() {
+                return g;
+            }
+        }
         let e = match self.r.below(9) {
             0 | 1 => self.str_expr(false, depth),
             2 => self.int_expr(false, depth),
